@@ -25,7 +25,8 @@ RULE = (
     "prefix, redundant re-statement, two prefixes sharing a remote, two remotes sharing a cache, a longer prefix "
     "overriding the remote, one remote paired with two caches, prefixes strictly inside a tracked directory "
     "that redirect the remote of a sub-directory or file, outer prefixes carrying only the cache), 1-3 caches and 1-3 remotes of both local store classes, remote index on/off, "
-    "tmp_dir on the caches on/off (drawn independently), a plain tracked file under another remote of the same "
+    "tmp_dir on the caches on/off (drawn independently), read_only=True on the remote / cache storage of a prefix "
+    "(independent per prefix; a read-only remote already holds everything below its prefix), a plain tracked file under another remote of the same "
     "cache whose content equals a file inside a tracked directory, closed pre-existing remote contents, explicit "
     "collection index on/off, and a fault plan: object ids whose "
     "final placement into (a subset of) the remotes raises EIO in push round 1, optionally ids whose placement "
@@ -71,6 +72,10 @@ ASSUMPTIONS = [
     "to the outer remote if its cache happens to hold them; the statement only demands delivery to the "
     "designated remote, so such extras (still objects of the index, under that remote's prefix) are tolerated "
     "and equality is demanded only for maps without remote overrides (class 'exact')",
+    "read_only storages: the property text is silent about them. A remote registered read_only=True is "
+    "populated by the harness beforehand with every object below its prefix (a shared / imported dataset), so a "
+    "push has nothing to move there and nothing is demanded of it beyond truthful counts; fetch from it must "
+    "bring back the reachable set like from any other remote (reading is allowed)",
     "add_data/add_cache/add_remote copy the roles resolved at the new prefix into its entry; they are used "
     "parents-first, where that equals plain per-role resolution",
     "the checkout target already contains the (untracked) parent directory of a tracked key of depth 2, as any "
@@ -100,7 +105,8 @@ def pure_cases(draw):
     stores = [draw(st.sampled_from(["obj", "obj", "file"])) for _ in range(nstores)]
     keys = draw(st.lists(key, min_size=1, max_size=5, unique_by=tuple))
     sid = st.one_of(st.none(), st.integers(0, nstores - 1), st.integers(0, nstores - 1))
-    pmap = [{"key": k, "data": draw(sid), "cache": draw(sid), "remote": draw(sid)} for k in keys]
+    pmap = [{"key": k, "data": draw(sid), "cache": draw(sid), "remote": draw(sid),
+             "ro": draw(st.lists(st.sampled_from(PROLES), max_size=2, unique=True))} for k in keys]
     queries = draw(st.lists(st.lists(st.sampled_from(ALPH), max_size=4), min_size=1, max_size=6))
     return {
         "kind": "pure",
@@ -133,17 +139,17 @@ def run_pure(case, ctx):  # noqa: C901, PLR0912, PLR0915
         pmap = sorted(pmap, key=lambda p: len(p["key"]))  # parents first (stable)
     made = {}  # (prefix, role) -> storage object
 
-    def mk(prefix, s):
+    def mk(prefix, s, ro):
         if case["stores"][s] == "obj":
-            return ObjectStorage(prefix, odbs[s])
-        return FileStorage(prefix, fs, roots[s])
+            return ObjectStorage(prefix, odbs[s], read_only=ro)
+        return FileStorage(prefix, fs, roots[s], read_only=ro)
 
     smap = StorageMapping()
     for p in pmap:
         k = tuple(p["key"])
         for role in PROLES:
             if p[role] is not None:
-                made[(k, role)] = mk(k, p[role])
+                made[(k, role)] = mk(k, p[role], role in p.get("ro", ()))
         if case["mode"] == "setitem":
             smap[k] = StorageInfo(**{role: made.get((k, role)) for role in PROLES})
         else:
@@ -224,6 +230,8 @@ def run_pure(case, ctx):  # noqa: C901, PLR0912, PLR0915
 _NAMES = gen.names()
 _CONTENT = st.one_of(gen.small_contents(), gen.small_contents(), gen.contents())
 _KIND = st.sampled_from(["file", "dir", "dir", "group"])
+_RO_REMOTE = st.sampled_from([False] * 7 + [True])
+_RO_CACHE = st.sampled_from([False] * 11 + [True])
 
 
 def _tree(draw, max_files, depth):
@@ -401,6 +409,12 @@ def flow_cases(draw):  # noqa: C901, PLR0912, PLR0915
             inh = resolve(prefixes, [nm])[1]
             prefixes.append({"key": [nm], "cache": None if inh["cache"] == dres["cache"] else dres["cache"],
                              "remote": r2})
+    for p in prefixes:
+        # read_only is an option of every registered storage, independent per prefix and role
+        if p["remote"] is not None and draw(_RO_REMOTE):
+            p["remote_ro"] = True
+        if p["cache"] is not None and draw(_RO_CACHE):
+            p["cache_ro"] = True
     order = draw(st.permutations(list(range(len(prefixes)))))
     prefixes = [prefixes[i] for i in order]
 
@@ -504,17 +518,19 @@ def run_flow(case, ctx):  # noqa: C901, PLR0912, PLR0915
                 for p in sorted(case["prefixes"], key=lambda p: len(p["key"])):
                     k = tuple(p["key"])
                     if p["cache"] is not None:
-                        smap.add_cache(ObjectStorage(k, caches[p["cache"]]))
+                        smap.add_cache(ObjectStorage(k, caches[p["cache"]], read_only=bool(p.get("cache_ro"))))
                     if p["remote"] is not None:
-                        smap.add_remote(ObjectStorage(k, remotes[p["remote"]]))
+                        smap.add_remote(ObjectStorage(k, remotes[p["remote"]], read_only=bool(p.get("remote_ro"))))
             else:
                 for p in case["prefixes"]:
                     k = tuple(p["key"])
                     old = smap._map.get(k)
                     smap[k] = StorageInfo(
                         data=old.data if old is not None else None,
-                        cache=ObjectStorage(k, caches[p["cache"]]) if p["cache"] is not None else None,
-                        remote=ObjectStorage(k, remotes[p["remote"]]) if p["remote"] is not None else None,
+                        cache=ObjectStorage(k, caches[p["cache"]], read_only=bool(p.get("cache_ro")))
+                        if p["cache"] is not None else None,
+                        remote=ObjectStorage(k, remotes[p["remote"]], read_only=bool(p.get("remote_ro")))
+                        if p["remote"] is not None else None,
                     )
 
         # ---- build -> md5 -> save into the designated caches ---------------------------------
@@ -643,6 +659,12 @@ def run_flow(case, ctx):  # noqa: C901, PLR0912, PLR0915
                     _put_raw(root, oid, m.bytes[oid])
                 if how == "full":
                     _put_raw(root, e["oid"], m.bytes[e["oid"]])
+            # a remote registered read-only is somebody else's store (shared / imported data): it already holds
+            # everything below the prefix that registers it; nothing is demanded of a push towards it
+            for p in case["prefixes"]:
+                if p["remote"] is not None and p.get("remote_ro"):
+                    for oid in sorted(m.objs_under(p["key"])):
+                        _put_raw(roots[p["remote"]], oid, m.bytes[oid])
             tidx = make_tidx(caches, rem, m.tracked)
             before = _snap(roots, f"before push{tag}", viols)
 
@@ -936,6 +958,15 @@ def run_flow(case, ctx):  # noqa: C901, PLR0912, PLR0915
             cl.append("remote-index")
         if case.get("cache_tmp"):
             cl.append("cache-tmp-dir")
+        ro_r = {p["remote"] for p in case["prefixes"] if p["remote"] is not None and p.get("remote_ro")
+                and m.objs_under(p["key"])}
+        if ro_r:
+            cl.append("read-only-remote")
+            if any(p["remote"] is not None and not p.get("remote_ro") and m.objs_under(p["key"])
+                   for p in case["prefixes"]):
+                cl.append("read-only-and-writable-remotes")
+        if any(p.get("cache_ro") for p in case["prefixes"]):
+            cl.append("read-only-cache-storage")
         # a plain file under one remote whose content equals a file listed by a directory under another remote,
         # both fed from one cache
         for k, e in m.entries.items():
